@@ -890,20 +890,20 @@ func checkIndexRegion(c indexCase) ev.Outcome {
 func init() {
 	ev.Define("cell_bounds", ev.Options{
 		Rule:  "single cells and unions of 2..12 related cells (all levels and faces; cells around the poles, on the +-pi seam, at cube corners; neighbours, children, ancestors, siblings; raw or normalized). Probes: the vertices, the centre, high-precision points on the cell edges and edge midpoints +-2..4 ulps, near-vertex points. Truth = exact half-space test against the four normalized vertices (closed). Each cell's RectBound/CapBound/CellUnionBound and the union's three bounds must contain every contained probe. Non-trivial = a probe lies exactly on a cell boundary (exact determinant zero).",
-		Quick: 12000, Thorough: 400000}, genCellCase, checkCellBounds)
+		Quick: 12000, Thorough: 250000}, genCellCase, checkCellBounds)
 	ev.Define("cap_bounds", ev.Options{
 		Rule:  "caps with centres at/near the poles (1e-300..1.5 rad), on the seam, cell-derived, random; radii 0, denormal, tiny, log-uniform, hemisphere +-1e-15.., full, and radii that put the boundary on or next to a pole. Probes on the boundary circle at the north/south-most points and at the meridian-tangent points (+-jitter), at 1-1e-16..1 of the radius, +-3 ulps, interior, centre, poles. Truth = exact chord comparison AND Cap.ContainsPoint. Cap.RectBound must contain the computed lat/lng, Cap.CellUnionBound must cover. Non-trivial = a contained probe within 8 eps (relative, chord²) of the boundary and the rectangle not full.",
-		Quick: 24000, Thorough: 1200000}, genCapCase, checkCapBounds)
+		Quick: 24000, Thorough: 600000}, genCapCase, checkCapBounds)
 	ev.Define("rect_bounds", ev.Options{
 		Rule:  "valid lat-lng rectangles (touching poles, symmetric about the equator, thin, longitude spans pi+-0..1e-3, tiny, nearly 2pi, full, crossing the seam); probes at corners, edge midpoints, edges and interior, converted to points; kept if their computed lat/lng is in the rectangle. Rect.CapBound must contain them, Rect.CellUnionBound must cover them. Non-trivial = a corner is among the contained probes.",
-		Quick: 16000, Thorough: 1000000}, genRectCase, checkRectBounds)
+		Quick: 16000, Thorough: 500000}, genRectCase, checkRectBounds)
 	ev.Define("polyline_bounds", ev.Options{
 		Rule:  "polylines: single edges between related points (near-identical 1e-300.., near-antipodal, at the poles), edges on (nearly) opposite meridians, edges 2e-16..0.1 from antipodal, chains winding around the sphere, degenerate tuples. Vertices must be in RectBound/CapBound/CellUnionBound exactly. Points on the edges computed at 320 bits (edge latitude extrema, midpoints, random) whose measured distance d to the polyline is <= 2.5e-16: latitude outside the bound by at most d + 1 eps, longitude by at most (d+eps)/cos(lat)+eps (bounds stated before running); if inside the rectangle they must be in the cap and the cell union. Non-trivial = an on-edge probe was judged and the rectangle is not full.",
-		Quick: 16000, Thorough: 500000}, genLineCase, checkPolylineBounds)
+		Quick: 16000, Thorough: 250000}, genLineCase, checkPolylineBounds)
 	ev.Define("polygon_bounds", ev.Options{
 		Rule:  "polygons: 1..4 nested rings (shell/hole alternation), two disjoint shells, single pole-vertex / pole-edge loops; probes as for loops; truth = exact crossing parity over all rings from the construction's known point. Contained probes must be in RectBound, CapBound, CellUnionBound. Non-trivial = a contained probe within 1e-15 of an edge interior and the rectangle not full.",
-		Quick: 8000, Thorough: 300000}, genPolygonCase, checkPolygonBounds)
+		Quick: 8000, Thorough: 150000}, genPolygonCase, checkPolygonBounds)
 	ev.Define("shapeindex_region_bounds", ev.Options{
 		Rule:  "1..6 shapes of the seven shape types about 1, 2, 3 or 6 centres (1..6 faces), optionally a loop containing a whole cube face; every vertex and a high-precision point on each of the first 40 edges of each shape must be covered by ShapeIndexRegion.CellUnionBound and lie in its RectBound and CapBound. Non-trivial = the bound has at least two cells.",
-		Quick: 4000, Thorough: 150000}, genIndexCase, checkIndexRegion)
+		Quick: 4000, Thorough: 80000}, genIndexCase, checkIndexRegion)
 }
